@@ -60,10 +60,15 @@ Inductive item :=
 | IFrac (n : nat)             (* %3f / %6f : exactly n digits, no dot *)
 | ITz (zulu missing : bool)   (* %z %:z (false,false); %#z (true,true) *)
 | ITzName                     (* %Z : skips non-whitespace, sets nothing *)
+| IDotFrac                    (* %.3f %.6f %.9f when PARSING: optional '.', then 1..9 digits scaled by
+                                 their count, further digits skipped (chrono Fixed::Nanosecond3/6/9) *)
+| INano                       (* %f when parsing: numeric, 1..9 digits = nanoseconds (not scaled) *)
 | IErr.                       (* specifier outside the modelled subset *)
 
-(* StrftimeItems for the subset used by the table.
-   37 '%'  89 Y 109 m 100 d 72 H 77 M 83 S 115 s 51 '3' 54 '6' 102 f 122 z 58 ':' 35 '#' 90 Z *)
+(* StrftimeItems for the subset used by the table, plus (for the print-then-parse round trip of
+   C13) the remaining specifiers of the prepended datetime field: %f %9f %.3f %.6f %.9f %T %F %%.
+   37 '%'  89 Y 109 m 100 d 72 H 77 M 83 S 115 s 51 '3' 54 '6' 57 '9' 102 f 122 z 58 ':' 35 '#' 90 Z
+   84 T 70 F 46 '.' 45 '-' *)
 Fixpoint tokenize (p : bytes) : list item :=
   match p with
   | [] => []
@@ -80,12 +85,22 @@ Fixpoint tokenize (p : bytes) : list item :=
         else if c1 =? 115 then INum NTimestamp :: tokenize r1
         else if c1 =? 122 then ITz false false :: tokenize r1
         else if c1 =? 90 then ITzName :: tokenize r1
+        else if c1 =? 102 then INano :: tokenize r1
+        else if c1 =? 37 then ILit 37 :: tokenize r1
+        else if c1 =? 84 then INum NHour :: ILit 58 :: INum NMinute :: ILit 58 :: INum NSecond :: tokenize r1
+        else if c1 =? 70 then INum NYear :: ILit 45 :: INum NMonth :: ILit 45 :: INum NDay :: tokenize r1
         else match r1 with
              | c2 :: r2 =>
                if (c1 =? 51) && (c2 =? 102) then IFrac 3 :: tokenize r2
                else if (c1 =? 54) && (c2 =? 102) then IFrac 6 :: tokenize r2
+               else if (c1 =? 57) && (c2 =? 102) then IFrac 9 :: tokenize r2
                else if (c1 =? 58) && (c2 =? 122) then ITz false false :: tokenize r2
                else if (c1 =? 35) && (c2 =? 122) then ITz true true :: tokenize r2
+               else if (c1 =? 46) && ((c2 =? 51) || (c2 =? 54) || (c2 =? 57)) then
+                 match r2 with
+                 | c3 :: r3 => if c3 =? 102 then IDotFrac :: tokenize r3 else [IErr]
+                 | [] => [IErr]
+                 end
                else [IErr]
              | [] => [IErr]
              end
@@ -163,6 +178,13 @@ Definition scan_tz (zulu missing : bool) (s : list sym) : option (rawfield * lis
 Definition cons_opt {A} (x : A) (o : option (list A)) : option (list A) :=
   match o with Some l => Some (x :: l) | None => None end.
 
+(* str::trim_start_matches(is_ascii_digit) *)
+Fixpoint drop_digits (s : list sym) : list sym :=
+  match s with
+  | Dg _ :: r => drop_digits r
+  | _ => s
+  end.
+
 (* parse_internal + "no trailing characters" *)
 Fixpoint scan (items : list item) (s : list sym) : option (list rawfield) :=
   match items with
@@ -185,6 +207,22 @@ Fixpoint scan (items : list item) (s : list sym) : option (list rawfield) :=
                  | None => None
                  end
     | ITzName => scan rest (drop_nonws s)
+    | IDotFrac => match s with
+                  | x :: t =>
+                    if sym_is x 46 then
+                      let '(ds, r) := take_digits 9 t in
+                      match ds with
+                      | [] => None
+                      | _ :: _ => cons_opt (RFrac (length ds) ds) (scan rest (drop_digits r))
+                      end
+                    else scan rest s
+                  | [] => scan rest s
+                  end
+    | INano => let '(ds, r) := take_digits 9 (trim_ws s) in
+               match ds with
+               | [] => None
+               | _ :: _ => cons_opt (RFrac 9 ds) (scan rest r)
+               end
     | IErr => None
     end
   end.
